@@ -196,6 +196,16 @@ impl<'tcx> Cx<'tcx> {
                 items.push(("size", format!("{}", i.size().bytes())));
             }
             ConstValue::ZeroSized => items.push(("zst", "true".into())),
+            ConstValue::Indirect { alloc_id, offset } if matches!(ty.kind(), ty::Array(et, _) if et.is_integral() && et.primitive_size(self.tcx).bytes() == 1) => {
+                let n = match ty.kind() {
+                    ty::Array(_, n) => n.try_to_target_usize(self.tcx).unwrap_or(0) as usize,
+                    _ => 0,
+                };
+                match self.read_alloc(alloc_id, offset.bytes() as usize, n) {
+                    Some(b) => items.push(("bytes", hex(&b))),
+                    None => items.push(("opaque", esc("indirect"))),
+                }
+            }
             other => {
                 if let Some(b) = self.bytes_of_ptr_const(other, ty) {
                     items.push(("bytes", hex(&b)));
@@ -857,7 +867,7 @@ impl rustc_driver::Callbacks for Cb {
                         obj(&[("name", esc(v.name.as_str())), ("fields", arr(&fs))])
                     })
                     .collect();
-                adts.push(obj(&[("path", esc(&tcx.def_path_str(did))), ("variants", arr(&vs))]));
+                adts.push(obj(&[("path", esc(&tcx.def_path_str(did))), ("dpath", esc(&cx.dpath(did))), ("variants", arr(&vs))]));
             }
         }
         let out = obj(&[("crate", esc(&krate)), ("mode", esc("G")), ("bodies", arr(&bodies)), ("adts", arr(&adts)), ("impls", arr(&impls))]);
